@@ -1,3 +1,4 @@
+import Beetswap.Proofs.ConnHandler
 import Beetswap.Proofs.Handler
 import Beetswap.Proofs.ClientView
 import Beetswap.Proofs.Net
@@ -124,5 +125,44 @@ example : Obeys {} sampleRun := by
   simp [Obeys, sampleRun, okEnv, step, sendWantlist, setStream, changeState, poll, pollFuel]
 
 example : (specRun {} (traceOf {} sampleRun)).map (·.phase) = some (.accepted 2) := by decide
+
+
+end Beetswap.Props.C14
+
+namespace Beetswap.Props.C14
+
+/-! ### The whole connection handler (`Model/ConnHandler`, lib.rs `ConnHandler`)
+
+The client half shares its connection handler with the server half and the inbound substreams.
+Its part of any run of the whole handler is a run of `Model/ClientHandler`, so the refinement
+above applies whatever the other parts do. -/
+section
+open Beetswap.Proto Beetswap.ConnHandler Beetswap.Proofs.ConnHandler
+
+/-- The client half of any run of the connection handler is a run of `Model/ClientHandler` on the
+projected inputs: same final state, same outputs in the same order. Nothing the server half or
+the inbound substreams do is visible to it. -/
+theorem client_projection (h : CH) (ins : List In) :
+    (run h ins).1.client = (ClientHandler.run h.client (clientIns h ins)).1 ∧
+    clientOutsOf (run h ins).2 = (ClientHandler.run h.client (clientIns h ins)).2 :=
+  Proofs.ConnHandler.client_projection h ins
+
+/-- C14 for the whole connection handler: if the behaviour obeys its obligations towards the
+client half, the client half's trace inside any run of the connection handler — whatever arrives
+on inbound substreams, whatever the server half does — is accepted by the specification. -/
+theorem client_trace_accepted (ins : List In)
+    (ho : Spec.HandlerSpec.Obeys {} (clientIns {} ins)) :
+    (Spec.HandlerSpec.specRun {} (Spec.HandlerSpec.traceOf {} (clientIns {} ins))).isSome = true :=
+  Proofs.ConnHandler.client_trace_accepted ins ho
+
+/-- The connection is kept alive exactly as long as the client half has not halted; neither the
+server half nor any inbound substream can close the connection. -/
+theorem keepAlive_only_client (h : CH) (i : In) (hk : keepAlive h = true)
+    (hnot : keepAlive (step h i).1 = false) :
+    ∃ env, i = .poll env ∧ (Inbound.selectPoll h.streams env.inbound env.order).2 = none ∧
+      (ClientHandler.poll ClientHandler.pollFuel h.client env.client []).1.halted = true :=
+  Proofs.ConnHandler.keepAlive_only_client h i hk hnot
+
+end
 
 end Beetswap.Props.C14
